@@ -75,6 +75,11 @@ func (raceStream) Generate(rng *rand.Rand, tier string, emit func(Case)) {
 	for _, ops := range [][]string{{"RemoveSpec", "ListDevices"}, {"WriteSpec", "GetErrors"}, {"RemoveSpec", "WriteSpec", "Configure", "Refresh", "InjectDevices"}} {
 		emit(Case{"op": "race", "ops": strs2any(ops), "iters": iters, "auto": true, "nodirs": true, "seed": rng.Int63()})
 	}
+	// queries only, on an auto-refresh cache one of whose directories does not exist: every query tries to watch it
+	// again (and records that it cannot) - the queries are writers of shared state, too
+	for _, ops := range [][]string{{"ListDevices", "GetDevice"}, {"InjectDevices", "ListVendors", "GetErrors"}, {"ListDevices", "ListDevices", "GetVendorSpecs", "ListClasses"}} {
+		emit(Case{"op": "race", "ops": strs2any(ops), "iters": iters, "auto": true, "missingdir": true, "seed": rng.Int63()})
+	}
 	// everything at once
 	n := 2
 	if tier == "thorough" {
@@ -210,11 +215,12 @@ func flipNames(state string) []string {
 
 func childRacer(args []string) int {
 	var c struct {
-		Ops    []string `json:"ops"`
-		Iters  int      `json:"iters"`
-		Auto   bool     `json:"auto"`
-		NoDirs bool     `json:"nodirs"`
-		Seed   int64    `json:"seed"`
+		Ops        []string `json:"ops"`
+		Iters      int      `json:"iters"`
+		Auto       bool     `json:"auto"`
+		NoDirs     bool     `json:"nodirs"`
+		MissingDir bool     `json:"missingdir"`
+		Seed       int64    `json:"seed"`
 	}
 	if err := json.Unmarshal([]byte(args[0]), &c); err != nil {
 		fmt.Fprintln(os.Stderr, "racer: bad args")
@@ -234,6 +240,9 @@ func childRacer(args []string) int {
 	dirs := []string{d0, d1}
 	if c.NoDirs {
 		dirs = nil
+	}
+	if c.MissingDir {
+		dirs = append(dirs, filepath.Join(root, "never-created"))
 	}
 	cache, _ := cdi.NewCache(cdi.WithSpecDirs(dirs...), cdi.WithAutoRefresh(c.Auto))
 	defer func() { _ = cache.Configure(cdi.WithAutoRefresh(false)) }()
